@@ -23,7 +23,11 @@ SEP_NONCONVEX = ['MCPenalty', 'MCPenalty+', 'WeightedMCPenalty', 'WeightedMCPena
 SEP_ROOT = ['L0_5', 'L2_3', 'LogSumPenalty']
 
 
-def mk_sep_penalty(h, name, p=2, step=None, weights=None, alpha=None, zero_weight=None, gamma=None):
+HYPER_CATALOGUE = dict(l1_ratio=0.5, gamma_mcp=3.0, gamma_scad=3.7, eps=1.0)
+
+
+def mk_sep_penalty(h, name, p=2, step=None, weights=None, alpha=None, zero_weight=None, gamma=None,
+                   concrete_hyper=False):
     """Build a separable penalty by short name; returns (penalty, meta).
 
     meta: positive(bool), box(None|alpha), convex(bool), rho (weak-convexity modulus, symbolic or 0)
@@ -46,21 +50,21 @@ def mk_sep_penalty(h, name, p=2, step=None, weights=None, alpha=None, zero_weigh
     if base == 'L1':
         pen = h.penalty(Pm.L1, alpha=al, positive=positive)
     elif base == 'L1_plus_L2':
-        r = h.real('l1_ratio')
+        r = HYPER_CATALOGUE['l1_ratio'] if concrete_hyper else h.real('l1_ratio')
         h.assume(r >= 0, r <= 1)
         meta['l1_ratio'] = r
         pen = h.penalty(Pm.L1_plus_L2, alpha=al, l1_ratio=r, positive=positive)
     elif base == 'WeightedL1':
         pen = h.penalty(Pm.WeightedL1, alpha=al, weights=weights, positive=positive)
     elif base == 'MCPenalty':
-        g = h.real('gamma')
+        g = (gamma or HYPER_CATALOGUE['gamma_mcp']) if concrete_hyper else h.real('gamma')
         h.assume(g > 0)
         if step is not None:
             h.assume(g > step)
         meta.update(convex=False, gamma=g)
         pen = h.penalty(Pm.MCPenalty, alpha=al, gamma=g, positive=positive)
     elif base == 'WeightedMCPenalty':
-        g = h.real('gamma')
+        g = (gamma or HYPER_CATALOGUE['gamma_mcp']) if concrete_hyper else h.real('gamma')
         h.assume(g > 0)
         if step is not None:
             for j in range(p):
@@ -68,7 +72,7 @@ def mk_sep_penalty(h, name, p=2, step=None, weights=None, alpha=None, zero_weigh
         meta.update(convex=False, gamma=g)
         pen = h.penalty(Pm.WeightedMCPenalty, alpha=al, gamma=g, weights=weights, positive=positive)
     elif base == 'SCAD':
-        g = h.real('gamma') if gamma is None else gamma
+        g = (h.real('gamma') if not concrete_hyper else HYPER_CATALOGUE['gamma_scad']) if gamma is None else gamma
         h.assume(g > 2)
         if step is not None:
             h.assume(g - 1 > step)
@@ -88,7 +92,7 @@ def mk_sep_penalty(h, name, p=2, step=None, weights=None, alpha=None, zero_weigh
         meta.update(convex=False)
         pen = h.penalty(Pm.L2_3, alpha=al)
     elif base == 'LogSumPenalty':
-        e = h.real('eps')
+        e = HYPER_CATALOGUE['eps'] if concrete_hyper else h.real('eps')
         h.assume(e > 0)
         meta.update(convex=False, eps=e)
         pen = h.penalty(Pm.LogSumPenalty, alpha=al, eps=e)
@@ -124,8 +128,10 @@ XCAT = {
     'zero_last32': [[1, 0], [2, 0], [1, 0]],     # all-zero column (last)
     'zero_first32': [[0, 1], [0, 2], [0, -1]],   # all-zero column (first)
     'const32': [[1, 1], [1, 2], [1, 4]],         # constant column
-    'single31': [[1], [2], [-1]],                # single feature
+    'single31': [[1], [2], [-1]],
+    'col21': [[1], [2]],                         # with an intercept column: square invertible                # single feature
     'scale32': [[1000, 0.001], [2000, 0.002], [1000, -0.001]],   # widely different scales
+'inv33': [[1, 0, 1], [2, 1, 0], [-1, 1, 1]],   # square, invertible
     'gen43': [[1, 0, 2], [2, 1, 0], [-1, 1, 1], [0, 2, -1]],
     'corr33': [[1, 1, 0], [1, 2, 1], [0, 1, 1]],
     'zero_mid33': [[1, 0, 1], [2, 0, 0], [-1, 0, 1]],
